@@ -1,7 +1,12 @@
 SPECIFICATION Spec
 CONSTANTS
   MaxImports = 3
+  FewMax = 2
   UseLayouts = {"plain", "tight", "trail", "oneline", "stray"}
   Layouts3 = {"plain", "tight", "trail"}
   NExporters = {1, 2}
+  ExtMaxFull = 2
+  ExtMaxLite = 3
+  LiteCmts = {"none"}
+  ExtLayouts = {"plain", "tight", "trail"}
 INVARIANTS ReadsBack NewlineFixGood GlueFixGoodIffSeparated GlueOkNeedsSemicolon ApplySane Emit
